@@ -16,7 +16,7 @@
 static uint64_t pm_h; static size_t pm_nb, pm_tls; static int pm_nseg;
 static int pm_cb(struct dl_phdr_info *i, size_t sz, void *d) {
   int k; (void)sz; (void)d;
-  if (!i->dlpi_name || !strstr(i->dlpi_name, "libxrl-verif")) return 0;
+  if (!i->dlpi_name || !strstr(i->dlpi_name, "libxrl")) return 0;
   for (k = 0; k < i->dlpi_phnum; k++) { const ElfW(Phdr) *p = &i->dlpi_phdr[k];
     if (p->p_type == PT_LOAD && (p->p_flags & PF_W)) { pm_h = xv_fnv((const void *)(i->dlpi_addr + p->p_vaddr), p->p_memsz, pm_h); pm_nb += p->p_memsz; pm_nseg++; }
     /* thread-local storage of the library (this thread's block; before it is instantiated: its initialisation image, zero-extended) */
@@ -102,6 +102,11 @@ static uint64_t pm_procstate(void) { uint64_t h = XV_FNV0; int k; char **e; mode
   for (e = environ; e && *e; e++) h = xv_fnv(*e, strlen(*e) + 1, h);
   for (k = 1; k < 32; k++) { struct sigaction sa; memset(&sa, 0, sizeof sa); if (!sigaction(k, NULL, &sa)) { h = xv_fnv(&sa.sa_handler, sizeof sa.sa_handler, h); h = xv_fnv(&sa.sa_flags, sizeof sa.sa_flags, h); } }
   k = fegetround(); h = xv_fnv(&k, sizeof k, h);
+#if defined(__x86_64__) || defined(__i386__)
+  { unsigned int mx = 0; unsigned short cw = 0; __asm__ volatile("stmxcsr %0" : "=m"(mx)); __asm__ volatile("fnstcw %0" : "=m"(cw));
+    mx &= 0xFFC0u;          /* control bits only (flush-to-zero, rounding, exception masks, denormals-are-zero), not the sticky status flags */
+    h = xv_fnv(&mx, sizeof mx, h); h = xv_fnv(&cw, sizeof cw, h); }
+#endif
   return h; }
 
 #define KEEP 4000
